@@ -7,6 +7,19 @@ use std::panic::{catch_unwind, AssertUnwindSafe};
 
 thread_local! {
     static LAST_PANIC: RefCell<Option<(String, String)>> = const { RefCell::new(None) };
+    static VIA_GRAAF: std::cell::Cell<u32> = const { std::cell::Cell::new(0) };
+}
+
+/// Run an expression that calls graaf through a `#[track_caller]` entry
+/// point — `Index::index` / `IndexMut::index_mut` are declared so in core,
+/// and the attribute is inherited by every impl — so that a panic raised
+/// inside graaf, whose reported location is then the *harness* line, is not
+/// mistaken for a bug of the harness.
+pub fn via_graaf<R>(f: impl FnOnce() -> R) -> R {
+    VIA_GRAAF.with(|c| c.set(c.get() + 1));
+    let r = f();
+    VIA_GRAAF.with(|c| c.set(c.get().saturating_sub(1)));
+    r
 }
 
 static STOP: std::sync::atomic::AtomicBool = std::sync::atomic::AtomicBool::new(false);
@@ -38,6 +51,7 @@ pub fn install_panic_hook() {
             // the process is about to abort: leave a trace for the driver
             eprintln!("non-unwinding panic at {loc}: {msg}");
         }
+        let loc = if VIA_GRAAF.with(|c| c.get()) > 0 { format!("graaf(track_caller, reported at harness {loc})") } else { loc };
         LAST_PANIC.with(|p| *p.borrow_mut() = Some((loc, msg)));
     }));
 }
@@ -58,9 +72,11 @@ impl Panicked {
 /// Run `f`, turning an unwinding panic into `Err`.
 pub fn catch<R>(f: impl FnOnce() -> R) -> Result<R, Panicked> {
     LAST_PANIC.with(|p| *p.borrow_mut() = None);
+    let depth = VIA_GRAAF.with(|c| c.get());
     match catch_unwind(AssertUnwindSafe(f)) {
         Ok(r) => Ok(r),
         Err(_) => {
+            VIA_GRAAF.with(|c| c.set(depth));
             let (loc, msg) = LAST_PANIC
                 .with(|p| p.borrow_mut().take())
                 .unwrap_or_else(|| (String::new(), "<unknown>".into()));
